@@ -312,7 +312,7 @@ func c07Gen(t *rapid.T) c07Case {
 			a.C = pick("c", 1, 1, 2, 10, 60, 150, 400)
 		case "tamper":
 			a.I = rapid.IntRange(0, 1<<12).Draw(t, "i")
-			a.T = rapid.IntRange(0, 5).Draw(t, "t")
+			a.T = pick("t", 0, 1, 2, 3, 4, 5, 5, 5)
 			a.C = rapid.IntRange(0, 1<<10).Draw(t, "c")
 		}
 		c.Sched = append(c.Sched, a)
